@@ -27,6 +27,7 @@ import (
 
 	clientv3 "go.etcd.io/etcd/client/v3"
 	"go.etcd.io/etcd/client/v3/concurrency"
+	"go.uber.org/zap"
 
 	"github.com/KafScale/platform/internal/testutil"
 )
@@ -231,7 +232,7 @@ func c18SplitPartition(rid string) (string, int32) {
 }
 
 func (w *c18World) newMgr(idx int) *c18Mgr {
-	cli, err := clientv3.New(clientv3.Config{Endpoints: w.endpoints, DialTimeout: 5 * time.Second})
+	cli, err := clientv3.New(clientv3.Config{Endpoints: w.endpoints, DialTimeout: 5 * time.Second, Logger: zap.NewNop()})
 	if err != nil {
 		w.t.Fatalf("etcd client: %v", err)
 	}
@@ -809,7 +810,7 @@ func c18Tags(evs []c18Ev, obs []c18Obs) map[string]bool {
 func TestVerifC18(t *testing.T) {
 	rep := vNewReport("C18", "generated schedules (6-100 events over 2-3 brokers and 1-3 resources; plain, partition and group lease managers) of acquire steps / release halves / session expiry / ReleaseAll / restart / orphan-lease expiry executed on real LeaseManagers against one embedded etcd; non-trivial = a successful acquire plus an etcd step interleaved between the two halves of a Release, or a session expiry / restart; distinct = distinct executed event lists")
 	endpoints := testutil.StartEmbeddedEtcd(t)
-	root, err := clientv3.New(clientv3.Config{Endpoints: endpoints, DialTimeout: 5 * time.Second})
+	root, err := clientv3.New(clientv3.Config{Endpoints: endpoints, DialTimeout: 5 * time.Second, Logger: zap.NewNop()})
 	if err != nil {
 		t.Fatalf("etcd client: %v", err)
 	}
